@@ -1210,7 +1210,8 @@ def _numerics(ctx, numba, started):
     # other integrators / orders / strategies / energies
     t0 = time.time()
     extra = [("p3", dict(method="symplectic", order=6, dt=0.01)),
-             ("q2", dict(method="fixed", order=8, dt=0.02, strategy="single", seed_axis="q3"))]
+             ("q2", dict(method="fixed", order=8, dt=0.02, strategy="single", seed_axis="q3")),
+             ("q3", dict(method="fixed", order=6, dt=0.01))]
     if thorough:
         extra += [("q3", dict(method="symplectic", order=6, dt=0.01)), ("q2", dict(method="symplectic", order=4, dt=0.01)),
                   ("p2", dict(method="symplectic", order=8, dt=0.02)),
@@ -1242,6 +1243,40 @@ def _numerics(ctx, numba, started):
                               {"config": r3["cfg"], "rows": na, "rows_n_workers_1": nb, "differing": diff})
     ctx.log("other integrators/strategies: %.1fs" % (time.time() - t0))
     ctx.extra["numerics"] = report
+    # ---- history on ONE map object (its service caches results): several sections in sequence with equal options -- each answer is the map
+    # of the section that was asked for, bit for bit what a fresh object computes
+    t0 = time.time()
+    from hiten.algorithms.poincare.centermanifold.config import CenterManifoldMapConfig
+    from hiten.algorithms.poincare.centermanifold.options import CenterManifoldMapOptions
+    from hiten.algorithms.poincare.core.options import IterationOptions, SeedingOptions
+    from hiten.algorithms.types.configs import IntegrationConfig
+    from hiten.algorithms.types.options import IntegrationOptions, WorkerOptions
+    from hiten.system.maps import CenterManifoldMap
+    m = CenterManifoldMap(C["cm"], h0)
+    opts = CenterManifoldMapOptions(integration=IntegrationOptions(dt=0.01, order=4, c_omega_heuristic=20.0, max_steps=2000),
+                                    iteration=IterationOptions(n_iter=3), seeding=SeedingOptions(n_seeds=20), workers=WorkerOptions(n_workers=1))
+    hist = []
+    for sec in ("q3", "p3", "q2", "q3", "p2"):
+        hist.append(sec)
+        try:
+            m.config = CenterManifoldMapConfig(seed_strategy="axis_aligned", seed_axis=None, section_coord=sec, integration=IntegrationConfig(method="fixed"))
+            r = m.compute(section_coord=sec, options=opts)
+        except Exception as ex:
+            ctx.violation("map-computation-raises:history:" + sec, "compute(section_coord=%r) on a map object that already computed %r raised %r" % (sec, hist[:-1], ex),
+                          {"history": hist, "energy": h0})
+            break
+        st = np.asarray(r.states, dtype=float).reshape(-1, 4)
+        tm = np.asarray(r.times, dtype=float) if r.times is not None else np.zeros(0)
+        ctx.case(("map-history", tuple(hist)), nontrivial=len(hist) > 1, kind="map:history")
+        ok, na, nb, diff = same_rows({"states": st, "times": tm}, base[sec])
+        if np.any(st[:, COL[sec]] != 0.0) or not ok:
+            ctx.violation("section-history:" + sec,
+                          "compute(section_coord=%r) on ONE map object after %r: max |%s| = %.3g (must be 0), %d of %d rows differ from what a fresh object computes" % (
+                              sec, hist[:-1], sec, float(np.abs(st[:, COL[sec]]).max()) if len(st) else 0.0, diff, na),
+                          {"history": ["compute(section_coord=%r)" % s_ for s_ in hist], "energy": h0, "options": "dt=0.01, order 4 fixed, n_iter=3, 20 seeds, 1 worker",
+                           "max_abs_section_coordinate": float(np.abs(st[:, COL[sec]]).max()) if len(st) else 0.0, "rows": na, "rows_fresh": nb, "differing": diff})
+            break
+    ctx.log("one-object section history: %.1fs" % (time.time() - t0))
 
 
 # --------------------------------------------------------------------------------------------------------- trace validation
